@@ -33,6 +33,7 @@ import VotelibProofs.Lemmas.ShapeSTV
 import VotelibProofs.Lemmas.ShapeCardinal
 import VotelibProofs.Lemmas.ShapeApprovalPAV
 import VotelibProofs.Lemmas.ShapeQuotaSubtract
+import VotelibProofs.Lemmas.ShapeSequential
 namespace VL.C08
 open VL
 
